@@ -205,6 +205,151 @@ FUNCS = [
     ("C16", "dataiter/list_of_dicts.py", "ListOfDicts.aggregate", [], "ListOfDicts_aggregate"),
     ("C16", "dataiter/list_of_dicts.py", "ListOfDicts.left_join", [], "ListOfDicts_left_join"),
     ("C16", "dataiter/list_of_dicts.py", "ListOfDicts.semi_join", [], "ListOfDicts_semi_join"),
+    # (round 6) the rest of the library's functions: every function of the anchored modules is regenerated
+    ("C01", "dataiter/data_frame.py", "DataFrameColumn.__init__", [], "DataFrameColumn_init"),
+    ("C01", "dataiter/data_frame.py", "DataFrameColumn.nrow", [], "DataFrameColumn_nrow"),
+    ("C01", "dataiter/data_frame.py", "DataFrame.__init__", [], "DataFrame_init"),
+    ("C01", "dataiter/data_frame.py", "DataFrame.__setattr__", [], "DataFrame_setattr"),
+    ("C01", "dataiter/data_frame.py", "DataFrame.__hasattr", [], "DataFrame_hasattr"),
+    ("C01", "dataiter/data_frame.py", "DataFrame.__is_builtin_attr", [], "DataFrame_is_builtin_attr"),
+    ("C01", "dataiter/data_frame.py", "DataFrame.__list_builtin_attrs", [], "DataFrame_list_builtin_attrs"),
+    ("C01", "dataiter/data_frame.py", "DataFrame.clear", [], "DataFrame_clear"),
+    ("C01", "dataiter/data_frame.py", "DataFrame.colnames#0", [], "DataFrame_colnames_get"),
+    ("C01", "dataiter/data_frame.py", "DataFrame.colnames#1", [], "DataFrame_colnames_set"),
+    ("C01", "dataiter/data_frame.py", "DataFrame.columns", [], "DataFrame_columns"),
+    ("C01", "dataiter/data_frame.py", "DataFrame.ncol", [], "DataFrame_ncol"),
+    ("C01", "dataiter/data_frame.py", "DataFrame._new", [], "DataFrame_new"),
+    ("C01", "dataiter/data_frame.py", "DataFrame.popitem", [], "DataFrame_popitem"),
+    ("C01", "dataiter/data_frame.py", "DataFrame.__copy__", [], "DataFrame_copy"),
+    ("C01", "dataiter/data_frame.py", "DataFrame.__deepcopy__", [], "DataFrame_deepcopy"),
+    ("C01", "dataiter/data_frame.py", "DataFrame.copy", [], "DataFrame_copy2"),
+    ("C01", "dataiter/data_frame.py", "DataFrame.deepcopy", [], "DataFrame_deepcopy2"),
+    ("C01", "dataiter/util.py", "is_scalar", [], "util_is_scalar"),
+    ("C01", "dataiter/util.py", "sequencify", [], "util_sequencify"),
+    ("C01", "dataiter/util.py", "generate_colnames", [], "util_generate_colnames"),
+    ("C01", "dataiter/util.py", "yield_colnames", [], "util_yield_colnames"),
+    ("C01", "dataiter/data_frame.py", "DataFrame.__eq__", [], "DataFrame_eq"),
+    ("C02", "dataiter/data_frame.py", "DataFrame._parse_cols_from_boolean", [], "DataFrame_parse_cols_from_boolean"),
+    ("C02", "dataiter/data_frame.py", "DataFrame._parse_cols_from_integer", [], "DataFrame_parse_cols_from_integer"),
+    ("C02", "dataiter/data_frame.py", "DataFrame._parse_rows_from_integer", [], "DataFrame_parse_rows_from_integer"),
+    ("C02", "dataiter/data_frame.py", "DataFrame.sample", [], "DataFrame_sample"),
+    ("C02", "dataiter/data_frame.py", "DataFrame._view_rows", [], "DataFrame_view_rows"),
+    ("C05", "dataiter/data_frame.py", "DataFrame.full_join", [], "DataFrame_full_join"),
+    ("C05", "dataiter/data_frame.py", "DataFrame.compare", [], "DataFrame_compare"),
+    ("C09", "dataiter/data_frame.py", "DataFrame.rbind", [], "DataFrame_rbind"),
+    ("C09", "dataiter/data_frame.py", "DataFrame.rbind.get_part", [], "DataFrame_rbind_get_part"),
+    ("C09", "dataiter/data_frame.py", "DataFrame.map", [], "DataFrame_map"),
+    ("C06", "dataiter/vector.py", "Vector.concat", [], "Vector_concat"),
+    ("C06", "dataiter/vector.py", "Vector.range", [], "Vector_range"),
+    ("C06", "dataiter/vector.py", "Vector.sample", [], "Vector_sample"),
+    ("C06", "dataiter/vector.py", "Vector.map", [], "Vector_map"),
+    ("C06", "dataiter/vector.py", "Vector.replace_na", [], "Vector_replace_na"),
+    ("C06", "dataiter/vector.py", "Vector.get_memory_use", [], "Vector_get_memory_use"),
+    ("C06", "dataiter/vector.py", "Vector.__array_wrap__", [], "Vector_array_wrap"),
+    ("C10", "dataiter/vector.py", "Vector.__new__", [], "Vector_new"),
+    ("C10", "dataiter/vector.py", "Vector.__init__", [], "Vector_init"),
+    ("C10", "dataiter/vector.py", "Vector.fast", [], "Vector_fast"),
+    ("C10", "dataiter/vector.py", "Vector._np_array", [], "Vector_np_array"),
+    ("C10", "dataiter/vector.py", "Vector._std_to_np", [], "Vector_std_to_np"),
+    ("C10", "dataiter/vector.py", "Vector._std_to_np_na_value", [], "Vector_std_to_np_na_value"),
+    ("C10", "dataiter/vector.py", "Vector.is_boolean", [], "Vector_is_boolean"),
+    ("C10", "dataiter/vector.py", "Vector.is_bytes", [], "Vector_is_bytes"),
+    ("C10", "dataiter/vector.py", "Vector.is_datetime", [], "Vector_is_datetime"),
+    ("C10", "dataiter/vector.py", "Vector.is_float", [], "Vector_is_float"),
+    ("C10", "dataiter/vector.py", "Vector.is_integer", [], "Vector_is_integer"),
+    ("C10", "dataiter/vector.py", "Vector.is_number", [], "Vector_is_number"),
+    ("C10", "dataiter/vector.py", "Vector.is_object", [], "Vector_is_object"),
+    ("C10", "dataiter/vector.py", "Vector.is_string", [], "Vector_is_string"),
+    ("C10", "dataiter/vector.py", "Vector._is_string_fixed", [], "Vector_is_string_fixed"),
+    ("C10", "dataiter/vector.py", "Vector.is_timedelta", [], "Vector_is_timedelta"),
+    ("C10", "dataiter/vector.py", "Vector.as_boolean", [], "Vector_as_boolean"),
+    ("C10", "dataiter/vector.py", "Vector.as_bytes", [], "Vector_as_bytes"),
+    ("C10", "dataiter/vector.py", "Vector.as_date", [], "Vector_as_date"),
+    ("C10", "dataiter/vector.py", "Vector.as_datetime", [], "Vector_as_datetime"),
+    ("C10", "dataiter/vector.py", "Vector.as_float", [], "Vector_as_float"),
+    ("C10", "dataiter/vector.py", "Vector.as_integer", [], "Vector_as_integer"),
+    ("C10", "dataiter/vector.py", "Vector.as_object", [], "Vector_as_object"),
+    ("C10", "dataiter/vector.py", "Vector.as_string", [], "Vector_as_string"),
+    ("C10", "dataiter/vector.py", "Vector._map_input_dtype", [], "Vector_map_input_dtype"),
+    ("C07", "dataiter/aggregate.py", "all", [], "agg_all"),
+    ("C07", "dataiter/aggregate.py", "any", [], "agg_any"),
+    ("C07", "dataiter/aggregate.py", "count", [], "agg_count"),
+    ("C07", "dataiter/aggregate.py", "count_unique", [], "agg_count_unique"),
+    ("C07", "dataiter/aggregate.py", "first", [], "agg_first"),
+    ("C07", "dataiter/aggregate.py", "last", [], "agg_last"),
+    ("C07", "dataiter/aggregate.py", "max", [], "agg_max"),
+    ("C07", "dataiter/aggregate.py", "mean", [], "agg_mean"),
+    ("C07", "dataiter/aggregate.py", "min", [], "agg_min"),
+    ("C07", "dataiter/aggregate.py", "mode", [], "agg_mode"),
+    ("C07", "dataiter/aggregate.py", "quantile", [], "agg_quantile"),
+    ("C07", "dataiter/aggregate.py", "composite", [], "agg_composite"),
+    ("C07", "dataiter/aggregate.py", "composite.wrapper", [], "agg_composite_wrapper"),
+    ("C07", "dataiter/aggregate.py", "generic.aggregate", [], "agg_generic_aggregate"),
+    ("C08", "dataiter/aggregate.py", "generic_numba.aggregate", [], "agg_generic_numba_aggregate"),
+    ("C08", "dataiter/aggregate.py", "is_na_item_numba", [], "agg_is_na_item_numba"),
+    ("C08", "dataiter/aggregate.py", "is_na_item_numba_overload", [], "agg_is_na_item_numba_overload"),
+    ("C08", "dataiter/util.py", "parse_env_boolean", [], "util_parse_env_boolean"),
+    ("C19", "dataiter/dt.py", "day", [], "dt_day"),
+    ("C19", "dataiter/dt.py", "hour", [], "dt_hour"),
+    ("C19", "dataiter/dt.py", "isoweek", [], "dt_isoweek"),
+    ("C19", "dataiter/dt.py", "isoweekday", [], "dt_isoweekday"),
+    ("C19", "dataiter/dt.py", "microsecond", [], "dt_microsecond"),
+    ("C19", "dataiter/dt.py", "minute", [], "dt_minute"),
+    ("C19", "dataiter/dt.py", "month", [], "dt_month"),
+    ("C19", "dataiter/dt.py", "new", [], "dt_new"),
+    ("C19", "dataiter/dt.py", "now", [], "dt_now"),
+    ("C19", "dataiter/dt.py", "second", [], "dt_second"),
+    ("C19", "dataiter/dt.py", "today", [], "dt_today"),
+    ("C19", "dataiter/vector.py", "DtProxy.__init__", [], "DtProxy_init"),
+    ("C19", "dataiter/vector.py", "ReProxy.__init__", [], "ReProxy_init"),
+    ("C19", "dataiter/vector.py", "StrProxy.__init__", [], "StrProxy_init"),
+    ("C19", "dataiter/vector.py", "Vector.dt", [], "Vector_dt"),
+    ("C19", "dataiter/vector.py", "Vector.re", [], "Vector_re"),
+    ("C19", "dataiter/vector.py", "Vector.str", [], "Vector_str"),
+    ("C19", "dataiter/vector.py", "as_vector", [], "vector_as_vector"),
+    ("C19", "dataiter/vector.py", "as_vector.wrapper", [], "vector_as_vector_wrapper"),
+    ("C14", "dataiter/io.py", "read_csv", [], "io_read_csv"),
+    ("C14", "dataiter/io.py", "read_geojson", [], "io_read_geojson"),
+    ("C14", "dataiter/io.py", "read_json", [], "io_read_json"),
+    ("C14", "dataiter/io.py", "read_npz", [], "io_read_npz"),
+    ("C14", "dataiter/io.py", "read_parquet", [], "io_read_parquet"),
+    ("C14", "dataiter/util.py", "format_alias_doc", [], "util_format_alias_doc"),
+    ("C13", "dataiter/list_of_dicts.py", "ListOfDicts.to_pandas", [], "ListOfDicts_to_pandas"),
+    ("C13", "dataiter/geojson.py", "GeoJSON.to_data_frame", [], "GeoJSON_to_data_frame"),
+    ("C18", "dataiter/geojson.py", "GeoJSON.__init__", [], "GeoJSON_init"),
+    ("C15", "dataiter/list_of_dicts.py", "ListOfDicts.__setitem__", [], "ListOfDicts_setitem"),
+    ("C15", "dataiter/list_of_dicts.py", "ListOfDicts.clear", [], "ListOfDicts_clear"),
+    ("C15", "dataiter/list_of_dicts.py", "ListOfDicts.drop_na", [], "ListOfDicts_drop_na"),
+    ("C15", "dataiter/list_of_dicts.py", "ListOfDicts.keys", [], "ListOfDicts_keys"),
+    ("C15", "dataiter/list_of_dicts.py", "ListOfDicts.map", [], "ListOfDicts_map"),
+    ("C15", "dataiter/list_of_dicts.py", "ListOfDicts.pluck", [], "ListOfDicts_pluck"),
+    ("C15", "dataiter/list_of_dicts.py", "ListOfDicts.sample", [], "ListOfDicts_sample"),
+    ("C15", "dataiter/util.py", "unique_keys", [], "util_unique_keys"),
+    ("C15", "dataiter/util.py", "unique_types", [], "util_unique_types"),
+    ("C15", "dataiter/deco.py", "listify.wrapper", [], "deco_listify_wrapper"),
+    ("C15", "dataiter/deco.py", "tuplefy.wrapper", [], "deco_tuplefy_wrapper"),
+    ("C16", "dataiter/list_of_dicts.py", "ListOfDicts.split", [], "ListOfDicts_split"),
+    ("C17", "dataiter/list_of_dicts.py", "ListOfDicts.copy", [], "ListOfDicts_copy2"),
+    ("C17", "dataiter/list_of_dicts.py", "ListOfDicts.deepcopy", [], "ListOfDicts_deepcopy2"),
+    ("C20", "dataiter/data_frame.py", "DataFrame.__repr__", [], "DataFrame_repr"),
+    ("C20", "dataiter/data_frame.py", "DataFrame.__str__", [], "DataFrame_str"),
+    ("C20", "dataiter/data_frame.py", "DataFrame.print_", [], "DataFrame_print"),
+    ("C20", "dataiter/data_frame.py", "DataFrame.print_memory_use", [], "DataFrame_print_memory_use"),
+    ("C20", "dataiter/data_frame.py", "DataFrame.print_na_counts", [], "DataFrame_print_na_counts"),
+    ("C20", "dataiter/list_of_dicts.py", "ListOfDicts.__repr__", [], "ListOfDicts_repr"),
+    ("C20", "dataiter/list_of_dicts.py", "ListOfDicts.__str__", [], "ListOfDicts_str"),
+    ("C20", "dataiter/list_of_dicts.py", "ListOfDicts.print_", [], "ListOfDicts_print"),
+    ("C20", "dataiter/list_of_dicts.py", "ListOfDicts.print_memory_use", [], "ListOfDicts_print_memory_use"),
+    ("C20", "dataiter/list_of_dicts.py", "ListOfDicts.print_na_counts", [], "ListOfDicts_print_na_counts"),
+    ("C20", "dataiter/vector.py", "Vector.__repr__", [], "Vector_repr"),
+    ("C20", "dataiter/vector.py", "Vector.__str__", [], "Vector_str2"),
+    ("C20", "dataiter/vector.py", "Vector.dtype_label", [], "Vector_dtype_label"),
+    ("C20", "dataiter/vector.py", "Vector.to_string.add_string_element", [], "Vector_to_string_add_string_element"),
+    ("C20", "dataiter/util.py", "count_digits", [], "util_count_digits"),
+    ("C20", "dataiter/util.py", "quote", [], "util_quote"),
+    ("C20", "dataiter/util.py", "get_print_width", [], "util_get_print_width"),
+    ("C20", "dataiter/geojson.py", "GeoJSON.to_string", [], "GeoJSON_to_string"),
+    ("C12", "dataiter/util.py", "makedirs_for_file", [], "util_makedirs_for_file"),
 ]
 
 
@@ -227,9 +372,16 @@ def find_function(tree, qual):
     node = tree
     for part in qual.split("."):
         found = None
+        want = None
+        if "#" in part:                  # `name#k`: the k-th definition of that name (a property's getter is #0, its setter #1)
+            part, k = part.split("#")
+            want = int(k)
+        seen = 0
         for n in node.body:
             if isinstance(n, (ast.ClassDef, ast.FunctionDef)) and n.name == part:
-                found = n
+                if want is None or seen == want:
+                    found = n
+                seen += 1
         if found is None:
             raise Unsupported(f"{qual}: {part} not found")
         node = found
